@@ -87,6 +87,10 @@ func (l *genericFileSessionLoader) Store(s *Session) error {
 	file.writeSession(s)
 	data, _ := json.Marshal(file)
 
+	// file is changing now: the cached copy must not survive it, even if modification time stays the same
+	// (filesystems with coarse timestamps put two writes into the same tick)
+	l.cached = nil
+
 	return ioutil.WriteFile(l.path, data, 0600)
 }
 
